@@ -1,6 +1,7 @@
 import RustCcModel.Proofs.CtlSimp
 import RustCcModel.Proofs.WeakInv
 import RustCcModel.Proofs.WeakExact
+import RustCcModel.Proofs.CycFresh
 /-! # C09 — weak/strong counts are exact; the weak side record lives as long as needed -/
 namespace RustCc.C09
 open World
@@ -86,17 +87,16 @@ theorem accessible_record_live (c : Cfg) (nH nW nK : Nat) (w : World) (h : Reach
 
 /-- **`weak_count()` equals the number of `Weak` pointers to the allocation that currently exist** — table entries, stashed
 pointers, weak fields of all objects, `Cleanable`s, the argument of a running `new_cyclic` closure — in every world of every
-history in which no `Weak` was lost (`ReachableW`): panics may be raised and caught anywhere (unwinding drops every `Weak` it
-holds), the only excluded steps are a `Cleaner::register` whose `Cleanable` the harness stores over an occupied table entry
-(the harness forgets the old one) and a `new_cyclic` storing its `Weak` over a non-empty weak field. -/
-theorem weak_count_exact (c : Cfg) (nH nW nK : Nat) (w : World) (h : ReachableW c nH nW nK w) (x : Id) :
+history (`ReachableK`): panics may be raised and caught anywhere (unwinding drops every `Weak` it holds); the only excluded
+step is a `Cleaner::register` whose `Cleanable` the *harness* stores over an occupied table entry (the harness forgets —
+leaks — the old one; safe Rust would drop it). That a `new_cyclic` never stores its `Weak` over a non-empty weak field is
+proved (`Proofs/CycFresh.lean`: nobody writes the fields of a value under construction). -/
+theorem weak_count_exact (c : Cfg) (nH nW nK : Nat) (w : World) (h : ReachableK c nH nW nK w) (x : Id) :
     (w.metas x).weak = weakPointersTo w x :=
-  reachableW_weak_exact h x
+  reachableK_weak_exact h x
 
-/-- The excluded steps exist: a reachable world in which the count is strictly above the number of pointers would need one of
-them — with `≥` (`weak_count_never_too_low`) this makes the restriction exact. Non-vacuity of `ReachableW`: the initial
-world and any first top-level operation. -/
-example (c : Cfg) (op : Op) : ReachableW c 2 2 2
+/-- Non-vacuity of `ReachableK`: the initial world and any first top-level operation. -/
+example (c : Cfg) (op : Op) : ReachableK c 2 2 2
     { (World.init c 2 2 2) with stack := [.script [op] none none true, .catchTop], events := [], ret := .ok } :=
   .top _ op .init rfl rfl
 
